@@ -1,6 +1,6 @@
 """Pool discipline rules P1..P16 (DESIGN.md 4.4).  Each function records obligations on ctx."""
 from core import (norm, L_call, L_variant, root_has, arms, assigns_to_return, const_of, CallSite,
-                  returned_comparison, closure_arg_of)
+                  returned_comparison, closure_arg_of, sig)
 from mir import place_str, op_place, op_str
 
 VEC = ("alloc::vec::Vec", "std::vec::Vec")
@@ -250,7 +250,7 @@ def P2(ctx, facts, allow_checkout_drop=True):
                 any(r.kind == "call" and r.site.is_("std::option::Option::take", "core::option::Option::take") for r in croots)
             ctx.check(ok, "Checkout::drop|conn-root", "pushed connection is the checkout's own unused `connection` field",
                       "pushed connection roots: %s" % sorted(map(repr, croots)), c.where())
-            troots = f.roots(c.args[1])
+            troots = sig(f.roots(c.args[1]))
             ctx.check(troots and all(r.kind == "arg" and r.desc.endswith("token") for r in troots), "Checkout::drop|token-root",
                       "pushed under the checkout's own token", "token roots: %s" % sorted(map(repr, troots)), c.where())
             okg, w = f.guarded(c.bb, L_call(f, "client::pool::PoolableConnection::is_open", True))
